@@ -34,6 +34,8 @@ type dkind struct {
 	sc   []field
 	leaf ft // for leaf kinds
 	run  func(doc []byte) error
+	// member: the same type as a (non-pointer) member of an enclosing object
+	member func(doc []byte) error
 }
 
 func leafRun[T any]() func([]byte) error {
@@ -45,22 +47,31 @@ func leafRun[T any]() func([]byte) error {
 func structRun[T any]() func([]byte) error {
 	return func(doc []byte) error { return json.Unmarshal(doc, new(T)) }
 }
+func sk[T any](name string, sc []field) dkind {
+	return dkind{name: name, sc: sc, run: structRun[T](), member: leafRun[T]()}
+}
 
 var dkinds = []dkind{
-	{"DAudience", nil, tAud, leafRun[oidc.Audience]()},
-	{"DTime", nil, tTime, leafRun[oidc.Time]()},
-	{"DLocale", nil, tLocale, leafRun[*oidc.Locale]()},
-	{"DLocales", nil, tLocales, leafRun[oidc.Locales]()},
-	{"DBool", nil, tBoolish, leafRun[oidc.Bool]()},
-	{"DSDA", nil, tSDA, leafRun[oidc.SpaceDelimitedArray]()},
-	{"DActor", nil, tActor, leafRun[*oidc.ActorClaims]()},
-	{"DIDToken", scIDToken, 0, structRun[oidc.IDTokenClaims]()},
-	{"DAccessToken", scAccessToken, 0, structRun[oidc.AccessTokenClaims]()},
-	{"DTokenClaims", scTokenClaims, 0, structRun[oidc.TokenClaims]()},
-	{"DJWTRequest", scJWTRequest, 0, structRun[oidc.JWTTokenRequest]()},
-	{"DRequestObject", scRequestObject, 0, structRun[oidc.RequestObject]()},
-	{"DUserinfo", scUserinfo, 0, structRun[oidc.UserInfo]()},
-	{"DIntrospection", scIntrospection, 0, structRun[oidc.IntrospectionResponse]()},
+	{"DAudience", nil, tAud, leafRun[oidc.Audience](), nil},
+	{"DTime", nil, tTime, leafRun[oidc.Time](), nil},
+	{"DLocale", nil, tLocale, leafRun[*oidc.Locale](), nil},
+	{"DLocales", nil, tLocales, leafRun[oidc.Locales](), nil},
+	{"DBool", nil, tBoolish, leafRun[oidc.Bool](), nil},
+	{"DSDA", nil, tSDA, leafRun[oidc.SpaceDelimitedArray](), nil},
+	{"DActor", nil, tActor, leafRun[*oidc.ActorClaims](), nil},
+	sk[oidc.IDTokenClaims]("DIDToken", scIDToken),
+	sk[oidc.AccessTokenClaims]("DAccessToken", scAccessToken),
+	sk[oidc.TokenClaims]("DTokenClaims", scTokenClaims),
+	sk[oidc.JWTTokenRequest]("DJWTRequest", scJWTRequest),
+	sk[oidc.RequestObject]("DRequestObject", scRequestObject),
+	sk[oidc.UserInfo]("DUserinfo", scUserinfo),
+	sk[oidc.IntrospectionResponse]("DIntrospection", scIntrospection),
+	sk[oidc.DeviceAuthorizationResponse]("DDeviceAuthz", scDeviceAuthz),
+	sk[oidc.LogoutTokenClaims]("DLogoutToken", scLogoutToken),
+	sk[oidc.JWTProfileAssertionClaims]("DJWTProfileAssertion", scJWTProfileAssertion),
+	sk[oidc.DiscoveryConfiguration]("DDiscovery", scDiscovery),
+	sk[oidc.AccessTokenResponse]("DTokenResponse", scTokenResponse),
+	sk[oidc.TokenExchangeResponse]("DTokenExchange", scTokenExchange),
 }
 
 func cls(panicked string, err error) string {
@@ -93,6 +104,8 @@ func decodeCases(w *emit.Writer, g *gen, n int) {
 		{0, jarr(jstr("a"), jint(1)), "f=F01"},
 		{7, jobj(kv{"aud", jarr(jstr("a"), jint(1))}), "f=F01"},
 		{8, jobj(kv{"iss", jint(3)}, kv{"aud", jarr(jnull())}), "f=F01"},
+		{14, jnull(), "f=Fxx-C09-1"}, // DeviceAuthorizationResponse <- null, top-level
+		{14, jnull(), "f=Fxx-C09-1"}, // ... and as a member (second occurrence runs member mode)
 	}
 	for i := 0; i < n; i++ {
 		var dk dkind
@@ -117,11 +130,16 @@ func decodeCases(w *emit.Writer, g *gen, n int) {
 			}
 		}
 		raw := doc.Bytes(r, true)
+		member := dk.member == nil // leaf kinds are always decoded as a member
+		run := dk.run
+		if dk.member != nil && (r.Chance(1, 3) || i == len(fixed)-1) {
+			member, run = true, dk.member
+		}
 		var err error
-		p := drv.Catch(func() { err = dk.run(raw) })
-		tags = append(tags, "decoder="+dk.name, fmt.Sprintf("top=%d", doc.Kind))
+		p := drv.Catch(func() { err = run(raw) })
+		tags = append(tags, "decoder="+dk.name, fmt.Sprintf("top=%d", doc.Kind), fmt.Sprintf("member=%v", member))
 		w.Add(emit.Case{
-			Input:    emit.Ctor("IDecode", dk.name, doc.Coq(), Tables(r, doc)),
+			Input:    emit.Ctor("IDecode", dk.name, emit.Bool(member), doc.Coq(), Tables(r, doc)),
 			Observed: emit.Ctor("ODecode", cls(p, err)),
 			Tags:     tags,
 			Human:    map[string]any{"decoder": dk.name, "doc": short(raw), "panic": p, "err": fmt.Sprint(err)},
@@ -400,6 +418,10 @@ func userCodeCases(w *emit.Writer, g *gen, n int) {
 }
 
 func main() {
+	if len(os.Args) == 2 && os.Args[1] == "jwks-child" {
+		jwksChild()
+		return
+	}
 	cfg := drv.Parse()
 	r := drv.NewRand(cfg.Seed)
 	w := emit.NewWriter(cfg.Out, "C09_spec", 0, cfg.Only)
@@ -418,6 +440,7 @@ func main() {
 	handlerCases(w, g, total*20/100, !cfg.Quick)
 	exitCases(w, g, total*4/100)
 	codeCases(w, g, total*3/100)
+	hintCases(w, g, total*3/100)
 	routeCases(w, g, total*26/100)
 	clientCases(w, g, total*15/100)
 	ambiguous := deviceCases(w, g, max(12, total*15/1000))
@@ -425,7 +448,7 @@ func main() {
 	userCodeCases(w, g, max(8, total/100))
 
 	err = w.Close(emit.Meta{Property: "C09", Tier: cfg.Tier, Seed: cfg.Seed,
-		Rule:  "seeded structured fuzz, no coverage guidance. decode: JSON ASTs (well-typed members + wrong-typed / null / huge / nested / duplicate members, invalid UTF-8) serialised by the harness and fed to json.Unmarshal of each library type; verify: JWTs (provider-signed, foreign, none, garbage) around those payloads plus null / scalar / array / truncated payloads, wrong segment counts, bad base64, on the six verifier entry points; handler: request shapes (entry x endpoint/grant x form ok x Basic header kind x main parameter x client_id x first storage call fails) on Provider router, LegacyServer router and directly called grant handlers; code: redemption of a live code (public / confidential client x challenge stored or not x verifier none / right / wrong) on both routers; exit: valid authenticated revocation / introspection / userinfo requests whose k-th storage call fails (error or deadline); route: flow-first requests (a fresh code flow per case with random optional parts - challenge none / S256 / plain, nonce, state, scopes, max_age, zero auth time, empty amr / audience, not logged in -; live tokens / device codes approved, denied, pending) with mutations on every route x method x header x body of both routers, one third of them with an injected storage fault (k-th call or every call of one method, error or deadline); device: device authorization answer (interval absent / null / 0 / negative / 1 / 2 / huge / wrongly typed, expires_in likewise) then client.PollDeviceAccessTokenEndpoint against token answers (success, pending, slow_down, refusals, garbage) under a 300 ms deadline and a 10 s hang guard; opaque: crypto.DecryptAES on strings of n alphabet characters, m CR/LF and optionally a foreign character around the 16-byte / 22-character thresholds; client: provider answers (status x body AST / truncated) through a stub RoundTripper into the client helpers. Non-trivial = model path class != 0 (not: null document, wrong segment count, missing grant_type); distinct = distinct input term.",
+		Rule:  "seeded structured fuzz, no coverage guidance. decode: JSON ASTs (well-typed members + wrong-typed / null / huge / nested / duplicate members, invalid UTF-8) serialised by the harness and fed to json.Unmarshal of each library type; verify: JWTs (provider-signed, foreign, none, garbage) around those payloads plus null / scalar / array / truncated payloads, wrong segment counts, bad base64, on the six verifier entry points; handler: request shapes (entry x endpoint/grant x form ok x Basic header kind x main parameter x client_id x first storage call fails) on Provider router, LegacyServer router and directly called grant handlers; hint: id_token_hint tokens (issuer right / wrong, signature right / wrong, exp and iat absent / past / future) at end_session and authorize on both routers; code: redemption of a live code (public / confidential client x challenge stored or not x verifier none / right / wrong) on both routers; exit: valid authenticated revocation / introspection / userinfo requests whose k-th storage call fails (error or deadline); route: flow-first requests (a fresh code flow per case with random optional parts - challenge none / S256 / plain, nonce, state, scopes, max_age, zero auth time, empty amr / audience, not logged in -; live tokens / device codes approved, denied, pending) with mutations on every route x method x header x body of both routers, one third of them with an injected storage fault (k-th call or every call of one method, error or deadline); device: device authorization answer (interval absent / null / 0 / negative / 1 / 2 / huge / wrongly typed, expires_in likewise) then client.PollDeviceAccessTokenEndpoint against token answers (success, pending, slow_down, refusals, garbage) under a 300 ms deadline and a 10 s hang guard; opaque: crypto.DecryptAES on strings of n alphabet characters, m CR/LF and optionally a foreign character around the 16-byte / 22-character thresholds; client: provider answers (status x body AST / truncated) through a stub RoundTripper into the client helpers. Non-trivial = model path class != 0 (not: null document, wrong segment count, missing grant_type); distinct = distinct input term.",
 		Extra: map[string]any{"router_fixture": "opfix.NewStd, all capabilities", "clock_ambiguous": ambiguous},
 	})
 	if err != nil {
